@@ -109,7 +109,10 @@ func runScenario(sc scenario) (msg string, nlines int, nwrites int) {
 	var sshdLines, auditLines []string
 	for i := 0; i < n; i++ {
 		pid := 20000 + i
-		sshdLines = append(sshdLines, fmt.Sprintf("%d Accepted password for user%d from 10.2.%d.%d port %d ssh2\n", pid, i, i/250, i%250+1, 30000+i))
+		// each login line is followed by a line that lacks the pid prefix (a continuation line, a template without
+		// the pid): its first word stands where the pid belongs, so it is no login of anybody
+		sshdLines = append(sshdLines, fmt.Sprintf("%d Accepted password for user%d from 10.2.%d.%d port %d ssh2\n", pid, i, i/250, i%250+1, 30000+i)+
+			fmt.Sprintf("Accepted password for intruder%d from 10.66.%d.%d port %d ssh2\n", i, i/250, i%250+1, 40000+i))
 		ses := fmt.Sprint(100 + i)
 		auditLines = append(auditLines,
 			strings.Replace(auditgen.Simple("LOGIN", 1700001000+int64(i), 80000+3*i, ses, fmt.Sprint(pid), "1").Recs[0].Line, "old-ses=4294967295", "old-ses="+fmt.Sprint(100+(i+n-1)%n), 1)+"\n"+
